@@ -55,3 +55,13 @@ package fschannel
 //@   loop 1: invariant [acc-written] fwritten - old(fwritten) <= written
 //@   loop 1: invariant [acc-skipped] written - (fwritten - old(fwritten)) <= nrenames - old(nrenames)
 //@   loop 1: invariant [line-start] len(p) == len(old(p)) || old(p)[len(old(p)) - len(p) - 1] == '\n'
+//
+// The writer goroutine (property C07): the rotating file's Write requires whole lines (its contract above), and
+// that precondition can only be established at calls this package makes itself. So the rotating file is never
+// handed to code outside the module that could call Write on its own terms (escape rule) - the one exception is
+// io.Copy, and only with a *bytes.Buffer as the source, which is assumed to pass the buffer's whole content
+// (whole lines: json.Encoder.Encode appends one complete line per event) to Write in one call.
+//@ func (*FileBackend).writeLoop
+//@   check escape, callpre
+//@   modifies *
+//@   callpre io.Copy: typeis(src, *bytes.Buffer) && typeis(dst, *rotateFile)
